@@ -12,6 +12,7 @@ import (
 // whether the channel is still open. The error indicates whether the context
 // has been canceled.
 func Pop[T any](ctx context.Context, ch <-chan T) (T, bool, error) {
+	verifYield()
 	var res T
 	select {
 	case d, ok := <-ch:
@@ -25,6 +26,7 @@ func Pop[T any](ctx context.Context, ch <-chan T) (T, bool, error) {
 // has been canceled.
 func Push[T any](ctx context.Context, ch chan<- T, ts ...T) error {
 	for _, t := range ts {
+		verifYield()
 		select {
 		case <-ctx.Done():
 			return ctx.Err()
